@@ -73,7 +73,12 @@ Offs == {"0", "32", "p32", "p63m1", "p63", "p64m1", "p64", "p64p32", "p255", "p2
 Lens == {"0", "1", "32"}
 Ops3 == {"mcopy", "calldatacopy", "codecopy", "returndatacopy"}       \* dst, src, len
 Ops2 == {"mstore", "mstore8", "mload", "sha3", "log0", "return", "revert", "create", "extcodecopy", "callargs"}
-MemCases == [op : Ops3, a : Offs, b : Offs, c : Lens] \cup [op : Ops2, a : Offs, b : {"0"}, c : Lens]
+(* AUTH (the node's EIP-3074 opcode) reads signature and commit from memory[offset, offset + length) when  *)
+(* length >= 128: offsets inside, at and beyond the 32 bytes of memory the program has, word boundaries,      *)
+(* lengths around 128, huge values                                                                            *)
+AuthCases == [op : {"auth"}, a : {"0", "1", "31", "32", "33", "p32", "p64", "p255", "max"}, b : {"0"},
+              c : {"0", "127", "128", "160", "p32", "p64", "max"}]
+MemCases == [op : Ops3, a : Offs, b : Offs, c : Lens] \cup [op : Ops2, a : Offs, b : {"0"}, c : Lens] \cup AuthCases
 
 MemInit == GInit /\ hist = <<>> /\ mcase \in MemCases
 MemSpec == MemInit /\ [][FALSE]_ggvars
